@@ -108,7 +108,9 @@ HIST_RULE = ("histories of 8-40 steps over 1-3 columns (hash/btree, counted or n
              "clean logs, drop + reopen}; value lengths from classes {0, <64, <4096, 4090-4100, 32700-32800 (single/"
              "multi-part boundary), up to 150000}; after EVERY step every key of every column is read with get and "
              "get_size. A history is non-trivial when some commit touches a (column, key) that an earlier commit, not "
-             "yet enacted at that moment, also touches; distinct = distinct token sequences")
+             "yet enacted at that moment, also touches; distinct = distinct token sequences. One C01 / C07 history in eight is a growth history "
+             "(see C09): 66-90 keys aimed at one index page, reindex batches between the commits, and a queue wave (2-6 queued commits writing the same "
+             "1-3 keys, processed one at a time)")
 
 prop(
     id="C01", module="Properties.C01", vfile="Properties/C01.v", level="proof", subcmd="c01",
@@ -161,7 +163,8 @@ prop(
     theorems=["C17_options_roundtrip", "C17_validate_iff", "C17_validate_classes", "C17_prefixes_disjoint",
               "C17_drop_files_frame", "C17_drop_files_empties", "C17_non_column_files_kept"],
     counts={"quick": 1600, "thorough": 60000, "search": 8000},
-    rule="four case families from one PRNG: (text) metadata file written by the real code for 0-6 columns drawn from all 384 option values, "
+    rule="(one administration database in twelve has 101-130 columns, of which column 10 - the target -, three of the columns 100.., two others and the multitree column hold data) "
+         "four case families from one PRNG: (text) metadata file written by the real code for 0-6 columns drawn from all 384 option values, "
          "versions incl. unsupported ones, random salts - compared byte for byte with the model; (parse) that file or one of 10 damaged variants "
          "(deleted byte, bad bool, unknown compression, CRLF, trailing newline, missing salt, sizes marker, duplicate key, empty line, signed version) "
          "read by the real parser - result or error class compared; (validate) a database created with stored options opened with equal / longer / shorter / "
@@ -184,7 +187,9 @@ prop(
          "separating only one or two index generations later; 25-60 steps of {commit of 1-24 operations, process, flush, enact, reindex batch, clean, "
          "drop+reopen} then a drain and a reopen; every key read after every step. Non-trivial = the index of column 0 actually grew (index_00_17 appeared); "
          "the evidence counts histories in which two index generations coexisted on disk. (c09e) entry packing / key recovery through hook H5 for random "
-         "and boundary (bits, key prefix, address)",
+         "and boundary (bits, key prefix, address); plus, oracle only, one BULK growth history per 2000 codec cases: 2500-4000 index pages with 2-5 uniform keys each and one "
+         "page filled with 65-70 keys, committed in batches of 300-900, the reindex run to the end and the old index dropped (more live entries than one reindex "
+         "batch of 8192 moves, so a batch boundary falls inside a page); every key read after the growth and after a reopen",
     assumptions=["a reindex batch is modelled as a step without logical effect; slot-level behaviour of the index (insertion into an empty slot, continuation after a tail mismatch) is tied by the growth histories, not proved",
                  "index files larger than 17-18 bits are not created in checks; the entry theorems cover 16..49"],
     explanation="entry packing and key recovery proved for all index sizes; growth = no logical change at pipeline level; correspondence on page-overflow histories",
@@ -194,7 +199,9 @@ prop(
     id="C20", module="Properties.C20", vfile="Properties/C20.v", level="proof", subcmd="c20",
     theorems=["C20_content_preserved", "C20_key_recovered"],
     counts={"quick": 480, "thorough": 20000, "search": 3200},
-    rule="source databases of 1-3 hash columns (preimage / counted / lz4 / uniform keys), 2-8 keys per column, value lengths {0, 1-300, 4000-9000, "
+    rule="(a third of the sources use the all-zero salt with clustered uniform keys - two index pages per column; three keys in ten are inserted and removed "
+         "again before the migration, with or without a drain in between, so that index pages have holes) "
+         "source databases of 1-3 hash columns (preimage / counted / lz4 / uniform keys), 2-12 keys per column, value lengths {0, 1-300, 4000-9000, "
          "33000-70000 (multipart)}, counts 1-4 on counted columns; destination options keep the hashing scheme and change the other flags in 3 of 4 columns; "
          "forced migration of a third of the columns; in-place overwrite in a quarter of the cases; the real parity_db::migrate is run, then every key of the "
          "destination is read, counted destinations are iterated for the counts, and the source is re-read when overwrite was not requested. "
@@ -228,7 +235,9 @@ MT_RULE = ("multitree histories: column 0 multitree (plain / counted / append-on
            "ReferenceTree / DereferenceTree with plain sets and removals and, rarely, an invalid operation; steps {commit, process, flush, enact, clean, reopen, take / "
            "release the read lock of a live tree's reader}; two thirds of the histories end by dereferencing every live tree, drain and reopen. After EVERY step every "
            "root is traversed through get_root / get_node and dumped canonically (nodes numbered by first visit, so sharing is visible), the plain column is read, and "
-           "after a reopen the entry count of the multitree column is taken. Non-trivial: the history shares nodes between trees or dereferences a tree while its lock is held")
+           "after a reopen the entry count of the multitree column is taken. Non-trivial: the history shares nodes between trees or dereferences a tree while its lock is held. "
+           "One history in twelve (not append-only) starts with wide sharing: a tree with 200-255 children, then a tree whose 150-250 children are nine in ten "
+           "EXISTING children of the first (a few hundred reference counters change in one log record), drained, optionally reopened, optionally the sharer dereferenced")
 prop(
     id="C10", module="Properties.C10", vfile="Properties/C10.v", level="proof", subcmd="c10", beyond_known=True,
     theorems=["C10_node_pack_roundtrip", "C10_unrepresentable_rejected", "C10_insert_reads_back_after_commit", "C10_insert_reads_back_after_processing", "C10_shared_node_survives_dereference", "C10_unshared_leaf_is_reclaimed"],
